@@ -123,6 +123,13 @@ def family(pid, tier, seed):
         cap = lambda f, fk, kid: {"op": "cap", "f": f, "fk": fk, "kid": kid}
         seq = lambda *k: {"op": "seq", "kids": list(k)}
         node = lambda f: cap(f, "node", {"op": "prod", "p": "P1"})
+        g = mk_grammar("m2", [("P0", {"op": "alt", "kids": [{"op": "grp", "mode": "plus", "kid": {"op": "grp", "mode": "once", "kid": {"op": "alt", "kids": [seq(GG.lit("a"), GG.lit("b"), cap("A", "strings", GG.lit("("))), seq(GG.lit("a"), GG.lit("b"), cap("A", "strings", GG.lit(")")))]}}},
+                                                                 seq(GG.lit("a"), GG.lit("b"), cap("B", "strings", GG.lit(")")))]}, [F("A", "strings"), F("B", "strings")])],
+                        ks=(0, 1, 2, 3, 4, -1))
+        seen = set()
+        for s_ in ("a b )", "a b (", "a b ) a b (", "a b ( a b )", "a b", "a b ) a b"):
+            GG.add_input(g, s_, seen)
+        gs.append(g)
         for gid, first in (("m0", seq(GG.ref("Comment"), node("N"))), ("m1", seq(GG.ref("Comment"), GG.ref("Comment"), node("N")))):
             g = mk_grammar(gid, [("P0", seq(cap("H", "string", GG.ref("Ident")), {"op": "grp", "mode": "once", "kid": {"op": "alt", "kids": [first, node("N")]}}), [F("H", "string"), F("N", "node", "P1")]),
                                  ("P1", seq(cap("C", "string", GG.ref("Comment")), cap("V", "string", GG.ref("Ident"))), [F("C", "string"), F("V", "string")])],
@@ -176,6 +183,9 @@ def curated_c11(rng):
     gs.append(mk_grammar("c3", [("P0", grp("plus", cap("Items", "nodes", prod("P1"))), [F("Items", "nodes", "P1")]),
                                ("P1", seq(cap("Name", "string", ref("Ident")), cap("W", "unode", {"op": "user"})), [F("Name", "string"), F("W", "unode")])], with_pos=True))
     gs.append(mk_grammar("c4", [("P0", seq(grp("star", cap("Ws", "unodes", {"op": "user"}))), [F("Ws", "unodes")])], with_pos=True))
+    # nodes that consume nothing but explicitly matched elided tokens (doc comments)
+    gs.append(mk_grammar("c5", [("P0", seq(grp("star", cap("Docs", "nodes", prod("P1"))), cap("Name", "string", ref("Ident")), grp("star", cap("After", "nodes", prod("P1")))), [F("Docs", "nodes", "P1"), F("Name", "string"), F("After", "nodes", "P1")]),
+                               ("P1", cap("C", "string", ref("Comment")), [F("C", "string")])], with_pos=True))
     for g in gs:
         seen = set()
         GG.exhaustive_inputs(g, 3, seen, extra_terms=("#k#",))
@@ -218,6 +228,9 @@ def curated_core(rng, with_tokens=True):
     # a nullable production inside an optional group that fails after it (nothing consumed, captures pending)
     gs.append(mk_grammar("x3", [("P0", seq(grp("opt", seq(cap("L", "node", {"op": "prod", "p": "P1"}), lit("!"))), cap("V", "string", ref("Ident"))), [F("L", "node", "P1"), F("V", "string")]),
                                  ("P1", grp("star", cap("M", "strings", lit("("))), [F("M", "strings")])], ks=(0, 1, 2, -1)))
+    # an optional group whose body can match without consuming anything ([ "a"? "b"? ]): an empty match is a match
+    gs.append(mk_grammar("x4", [("P0", seq(lit("("), grp("opt", seq(grp("opt", cap("A", "string", lit("a"))), grp("opt", cap("B", "string", lit("b"))))), cap("C", "strings", grp("once", grp("star", ref("Ident")))), lit(")")),
+                                 [F("A", "string"), F("B", "string"), F("C", "strings")])], ks=(0, 1, -1)))
     # a union in an optional / repeated position whose earlier member fails beyond the lookahead
     gs.append(mk_grammar("u0", [("P0", seq(grp("opt", cap("H", "union", {"op": "union", "u": "U0"})), grp("star", cap("R", "strings", grp("once", alt(ref("Ident"), lit("("), lit(")")))))), [F("H", "union", "U0"), F("R", "strings")]),
                                  ("P1", seq(lit("a"), lit("b"), cap("X", "string", lit("("))), [F("X", "string")]),
@@ -284,6 +297,8 @@ def leak_family(rng, quick):
     combos += [("modcap_" + m, "none", k) for m in ("star", "opt", "plus") for k in ("string", "strings", "tokens")]
     # the three shapes of the long-input run (leak-big): here with short inputs, judged by the meaning
     combos += [("big_" + m, "none", "strings") for m in ("alt", "opt", "look")]
+    # a + group at the head of an enclosing optional / repeated group, its FIRST iteration failing after a capture
+    combos += [(c, n, k) for c in ("optplus", "starplus") for n in ("none", "complete") for k in ("string", "strings", "bool")]
     # captures INSIDE the operand of a negation that matches several tokens and then fails
     combos += [("negcap", n, k) for n in ("none", "complete") for k in ("string", "strings", "bool")]
     for idx, (cp, nested, kind) in enumerate(combos):
@@ -352,6 +367,8 @@ def leak_family(rng, quick):
             rep_ = grp(m, cap("A", kind, grp("once", seq(ref("Ident"), lit("!")))))
             body = seq(rep_, cont) if m != "plus" else {"op": "alt", "kids": [seq(rep_, lit(";")), cont]}
             prods_extra = []
+        elif cp in ("optplus", "starplus"):
+            body = seq(grp("opt" if cp == "optplus" else "star", seq(grp("plus", attempt), lit(";"))), cont)
         elif cp == "negcap":
             body = seq({"op": "neg", "kid": grp("once", attempt)}, grp("opt", cont))
         elif cp == "alt":
